@@ -375,7 +375,9 @@ func openLife(dir string, wait, replica bool, buf, torn []byte, levs []lev) (*li
 	if bl.protoErr != nil {
 		return nil, bl.protoErr
 	}
-	e.VerifParkTxLoop()
+	if !e.VerifParkTxLoop() {
+		panic("verif: background txLoop did not stop")
+	}
 	e.VerifSetCommitEvery(never)
 	return &life{e: e, bl: bl, dir: dir, wait: wait, replica: replica, levs: append([]lev(nil), levs...)}, nil
 }
